@@ -343,7 +343,12 @@ func runCmd(args []string) int {
 		fmt.Println(l)
 	}
 	wall := time.Since(t0)
-	writeEvidence(prop, tc, seed, results, violations, validated, spurious, wall, known)
+	if *onlyH != "" {
+		// a partial run (development aid) must not replace the evidence of the full check
+		fmt.Printf("gosmt: --only %s: partial run, evidence/%s.json left as it is\n", *onlyH, prop)
+	} else {
+		writeEvidence(prop, tc, seed, results, violations, validated, spurious, wall, known)
+	}
 	fmt.Printf("gosmt: %s %s done in %.1fs: violations=%d known=%d spurious=%d validated-traces=%d\n", prop, tc.name, wall.Seconds(), violations, len(knownLines), spurious, validated)
 	return exit
 }
